@@ -35,6 +35,9 @@ def treehash():
             for f in sorted(fn):
                 if f.endswith(".py"):
                     files.append(os.path.join(dp, f))
+        # shipped inputs that the entry-point runs consume
+        for pat in ("*.yaml", "examples/tokamak/*", "examples/torpex-xpoint/*", "integrated_tests/*/*.yml"):
+            files += sorted(glob.glob(os.path.join(core.REPO, pat)))
         for extra in ("vlib/genworker.py", "vlib/families.py", "vlib/genother.py"):
             p = os.path.join(core.VERIF, extra)
             if os.path.exists(p):
